@@ -438,17 +438,24 @@ MR_Unknown(q) == ~q.ovi \/ Cardinality({i \in 1..Len(q.mask) : q.mask[i]}) > 1
 -----------------------------------------------------------------------------
 (* collapse_slices: _collapse_slices.py  rule r1 = collapse_slice_rule, r2 = collapse_slice2_rule        *)
 BIGEND == 1000000         \* stands for INT64_MAX
+CS_Rec(r, ds, dc, st, en, ax, sp, k, ov) == [rule |-> r, ds |-> ds, decl |-> dc, st |-> st, en |-> en, ax |-> ax, sp |-> sp, ckind |-> k, ovi |-> ov]
 CS_AllParams(z) ==
-   {[rule |-> r, ds |-> ds, decl |-> dc, st |-> st, en |-> en, ax |-> ax, sp |-> sp, ckind |-> "init", ovi |-> ov] :
-        r \in {"r1", "r2"}, ds \in (IF Big THEN {<<3>>, <<2, 3>>, <<0, 2>>} ELSE {<<3>>, <<2, 3>>}), dc \in {"static", "sym", "unk", "unk1", "none"},
-        st \in (IF Big THEN {0, 1, -1} ELSE {0, 1}), en \in (IF Big THEN {-1, 1, 2, 3, 4, BIGEND} ELSE {2, 3, 4, BIGEND}),
-        ax \in -2..1, sp \in (IF Big THEN {1, 2, -1} ELSE {1, -1}), ov \in BOOLEAN}
-   \cup {[rule |-> r, ds |-> <<2, 3>>, decl |-> dc, st |-> 0, en |-> en, ax |-> ax, sp |-> 1, ckind |-> k, ovi |-> TRUE] :
+   \* starts 0, positive, and negative (-1, -dim+1, -dim, below -dim for dims 2 and 3) x ends below / at / above the dim and
+   \* the INT64_MAX token x positive and negative axes x steps, on static and symbolic axis sizes
+   {CS_Rec(r, ds, dc, st, en, ax, sp, "init", ov) :
+        r \in {"r1", "r2"}, ds \in (IF Big THEN {<<3>>, <<2, 3>>, <<0, 2>>} ELSE {<<3>>, <<2, 3>>}), dc \in {"static", "sym"},
+        st \in {0, 1, -1, -2, -3, -4}, en \in (IF Big THEN {-1, 1, 2, 3, 4, BIGEND} ELSE {2, 3, 4, BIGEND}),
+        ax \in -2..1, sp \in {1, 2, -1}, ov \in BOOLEAN}
+   \* what is known about the data shape
+   \cup {CS_Rec(r, ds, dc, st, en, ax, 1, "init", ov) :
+        r \in {"r1", "r2"}, ds \in {<<3>>, <<2, 3>>}, dc \in {"unk", "unk1", "none"}, st \in {0, 1, -3}, en \in {2, 3, BIGEND},
+        ax \in -2..1, ov \in BOOLEAN}
+   \cup {CS_Rec(r, <<2, 3>>, dc, 0, en, ax, 1, k, TRUE) :
         r \in {"r1", "r2"}, dc \in {"static", "sym"}, en \in {3, BIGEND}, ax \in {0, 1, -1}, k \in {"cnode", "ginput", "ginit"}}
 CS_X(q) == T("f32", q.ds, [k \in 1..Numel(q.ds) |-> k])
 \* (a negative step together with the INT64_MAX end is a corner where ORT departs from the operator text: not generated)
 CS_HostValid(q) == NormAxis(q.ax, Len(q.ds)) # -1000 /\ ~(q.sp < 0 /\ q.en = BIGEND)
-CS_Params(z) == {q \in CS_AllParams(0) : CS_HostValid(q)}
+CS_Params(z) == {q \in CS_AllParams(0) : CS_HostValid(q) /\ (q.rule = "r2" \/ q.ovi)}
 CS_Lhs(q) == IF ~CS_HostValid(q) THEN ERR ELSE Slice(CS_X(q), <<q.st>>, <<q.en>>, <<q.ax>>, <<q.sp>>)
 CS_Axis(q) == NormAxis(q.ax, Len(q.ds)) + 1
 CS_Full(q) == q.st = 0 /\ q.en = BIGEND /\ q.sp = 1
@@ -510,11 +517,11 @@ NE_Unknown(q) == q.decl = "none" \/ q.skind \in {"ginput", "ginit"}
 RR_S1(xs) == IF Numel(xs) = 6 THEN {<<6>>, <<3, 2>>, <<0, -1>>} ELSE {<<0>>, <<2, 0>>}
 RR_S2(xs) == IF Numel(xs) = 6 THEN {<<6>>, <<-1>>, <<2, 3>>, <<0, 2>>, <<0, -1>>, <<-1, 0>>, <<0, 0>>, <<2, -1>>, <<1, 0, -1>>, <<0, 1, 2>>, <<0, 1, 0>>}
                 ELSE {<<0>>, <<0, 2>>, <<3, 0>>, <<-1, 2>>, <<0, 0>>}
-RR_AllParams(z) == UNION {{[xs |-> xs, s1 |-> s1, s2 |-> s2, az |-> az, ovi |-> ov, skind |-> k, extra |-> ex] :
-                  s1 \in RR_S1(xs), s2 \in RR_S2(xs), az \in {NONE, 0, 1}, ov \in BOOLEAN,
+RR_AllParams(z) == UNION {{[xs |-> xs, s1 |-> s1, s2 |-> s2, az |-> az, az1 |-> a1, ovi |-> ov, skind |-> k, extra |-> ex] :
+                  s1 \in RR_S1(xs), s2 \in RR_S2(xs), az \in {NONE, 0, 1}, a1 \in BOOLEAN, ov \in BOOLEAN,
                   k \in {"init", "ginput"}, ex \in BOOLEAN} : xs \in {<<6>>, <<2, 3>>, <<0, 2>>}}
 RR_X(q) == T("f32", q.xs, [k \in 1..Numel(q.xs) |-> k])
-RR_Lhs(q) == Reshape(Reshape(RR_X(q), q.s1, FALSE), q.s2, q.az = 1)
+RR_Lhs(q) == Reshape(Reshape(RR_X(q), q.s1, q.az1), q.s2, q.az = 1)
 RR_New(q) ==       \* check(): positive dims of a known output shape are copied into the new shape
    LET o == RR_Lhs(q).shape IN [i \in 1..Len(q.s2) |-> IF q.ovi /\ o[i] > 0 THEN o[i] ELSE q.s2[i]]
 RR_KeepAz(q) == q.az = 1 /\ 0 \in SeqToSet(RR_New(q))
@@ -850,30 +857,46 @@ PC_Unknown(q) == q.decl = "none" \/ q.pkind \in {"ginput", "ginit"} \/ (q.kind =
 
 -----------------------------------------------------------------------------
 (* conv_affine: _fuse_conv_affine.py   x [1, 2, L, 1], w [M=2, 2, k, 1], b [2]; scalars scale / offset of shape cs    *)
+(*   (x [1, 2, 4, 1]: the code sums w over axes (1, 2, 3), i.e. 2-D convolutions; the second spatial dim is 1)          *)
 (*   affine_conv: Conv(x * scale + offset, w, b; pads = [0,0,0,0])  ->  Conv(x, w * scale, b + offset * sum(w))        *)
 (*   conv_affine: Conv(x, w, b) * scale + offset                    ->  Conv(x, w * scale, b * scale + offset)         *)
-CF_Params(z) ==
-   {[rule |-> r, sc |-> sc, of |-> of, cs |-> cs, ckind |-> "init", wkind |-> "init", pads |-> pd, k |-> k] :
+CF_Rec(r, sc, of, cs, kc, kw, pd, k, au, cv) ==
+   [rule |-> r, sc |-> sc, of |-> of, cs |-> cs, ckind |-> kc, wkind |-> kw, pads |-> pd, k |-> k, auto |-> au, cv |-> cv]
+CF_AllParams(z) ==
+   {CF_Rec(r, sc, of, cs, "init", "init", pd, k, "absent", "plain") :
         r \in {"affine_conv", "conv_affine"}, sc \in {-1, 2}, of \in {0, 1, -2}, cs \in {<<>>, <<1>>, <<1, 1>>, <<1, 1, 1, 1>>},
         pd \in {"zero", "absent", "nonzero"}, k \in {1, 2}}
-   \cup {[rule |-> r, sc |-> 2, of |-> 1, cs |-> <<>>, ckind |-> kc, wkind |-> kw, pads |-> "zero", k |-> 2] :
-        r \in {"affine_conv", "conv_affine"}, kc \in Kinds, kw \in Kinds}
-CF_L == 3
+   \* the Conv attributes the pattern does not pin: auto_pad x pads x kernel, strides, dilations (offset # 0: the border matters)
+   \cup {CF_Rec(r, 2, of, <<>>, "init", "init", pd, k, au, "plain") :
+        r \in {"affine_conv", "conv_affine"}, of \in {1, -2}, pd \in {"zero", "absent", "nonzero"}, k \in 1..3,
+        au \in {"absent", "NOTSET", "VALID", "SAME_UPPER", "SAME_LOWER"}}
+   \cup {CF_Rec(r, 2, 1, <<>>, "init", "init", pd, 2, au, cv) :
+        r \in {"affine_conv", "conv_affine"}, pd \in {"zero", "absent"}, au \in {"absent", "SAME_UPPER"}, cv \in {"stride2", "dil2"}}
+   \cup {CF_Rec(r, 2, 1, <<>>, kc, kw, "zero", 2, "absent", "plain") : r \in {"affine_conv", "conv_affine"}, kc \in Kinds, kw \in Kinds}
+CF_S(q) == IF q.cv = "stride2" THEN 2 ELSE 1
+CF_D(q) == IF q.cv = "dil2" THEN 2 ELSE 1
+\* hosts not generated: pads together with auto_pad VALID / SAME_*; SAME_* with a dilation (ORT refuses it)
+CF_HostValid(q) == /\ (q.pads # "absent" => q.auto \in {"absent", "NOTSET"})
+                   /\ (q.auto \in {"SAME_UPPER", "SAME_LOWER"} => CF_D(q) = 1)
+CF_Params(z) == {q \in CF_AllParams(0) : CF_HostValid(q)}
+CF_L == 4
 CF_X3 == T("f32", <<1, 2, CF_L>>, [i \in 1..(2 * CF_L) |-> i - 3])
 CF_W3(q) == T("f32", <<2, 2, q.k>>, [i \in 1..(4 * q.k) |-> (2 * (i % 3)) - 1])
 CF_B == <<5, -1>>
-CF_Pads(q) == IF q.pads = "nonzero" THEN <<1, 0>> ELSE <<0, 0>>
-\* Conv with bias on the 3-D view, returned as [1, M, out, 1]
-CF_Conv(x3, w3, bias, pads) ==
-   LET c == PC_Conv(x3, w3, pads[1], pads[2], 1, 1, 0, "f32") IN
+CF_Pads(q) == IF q.auto \in {"SAME_UPPER", "SAME_LOWER"} THEN PC_AutoPads(CF_L, q.k, CF_S(q), CF_D(q), q.auto)
+              ELSE IF q.pads = "nonzero" THEN <<1, 0>> ELSE <<0, 0>>
+\* Conv with bias (and the host's pads / strides / dilations) on the 3-D view, returned as [1, M, out, 1]
+CF_Conv(q, x3, w3, bias) ==
+   LET c == PC_Conv(x3, w3, CF_Pads(q)[1], CF_Pads(q)[2], CF_S(q), CF_D(q), 0, "f32") IN
    IF IsErr(c) THEN ERR
    ELSE T("f32", c.shape \o <<1>>, [i \in 1..Len(c.data) |-> c.data[i] + bias[(((i - 1) \div c.shape[3]) % 2) + 1]])
 CF_Bcast(t, cs) == IF IsErr(t) THEN ERR ELSE T(t.dt, BroadcastShape(t.shape, cs), t.data)       \* multiplying by a one-element tensor of shape cs
 CF_Lhs(q) ==
    IF q.rule = "affine_conv"
-   THEN CF_Bcast(CF_Conv(Map1(CF_X3, "f32", LAMBDA v : v * q.sc + q.of), CF_W3(q), CF_B, CF_Pads(q)), q.cs)
-   ELSE CF_Bcast(Map1(CF_Conv(CF_X3, CF_W3(q), CF_B, CF_Pads(q)), "f32", LAMBDA v : v * q.sc + q.of), q.cs)
-\* affine_conv spells out pads = [0, 0, 0, 0]
+   THEN CF_Bcast(CF_Conv(q, Map1(CF_X3, "f32", LAMBDA v : v * q.sc + q.of), CF_W3(q), CF_B), q.cs)
+   ELSE CF_Bcast(Map1(CF_Conv(q, CF_X3, CF_W3(q), CF_B), "f32", LAMBDA v : v * q.sc + q.of), q.cs)
+\* affine_conv spells out pads = [0, 0, 0, 0] (so auto_pad, which excludes pads, can only be absent / NOTSET there);
+\* strides / dilations / auto_pad are "other attributes" and are copied to the replacement
 CF_Match(q, devs) == q.rule = "conv_affine" \/ q.pads = "zero"
 CF_Check(q, devs) ==
    IF ~HasConstValue(q.wkind, devs) \/ ~HasConstValue(q.ckind, devs) THEN "fail"
@@ -885,9 +908,9 @@ CF_Rewrite(q, devs) ==
        sw == Map1(w, "f32", LAMBDA v : v * q.sc)
        SumW(m) == SeqSum([j \in 1..(2 * q.k) |-> w.data[(m - 1) * 2 * q.k + j]])
    IN IF q.rule = "affine_conv"
-      THEN Res(CF_Conv(CF_X3, sw, [m \in 1..2 |-> CF_B[m] + q.of * SumW(m)], CF_Pads(q)), TRUE)
+      THEN Res(CF_Conv(q, CF_X3, sw, [m \in 1..2 |-> CF_B[m] + q.of * SumW(m)]), TRUE)
       ELSE IF Len(q.cs) > 1 THEN Res(ERR, TRUE)                  \* bias of shape broadcast([2], cs): not 1-D, the model does not load
-      ELSE Res(CF_Conv(CF_X3, sw, [m \in 1..2 |-> CF_B[m] * q.sc + q.of], CF_Pads(q)), TRUE)
+      ELSE Res(CF_Conv(q, CF_X3, sw, [m \in 1..2 |-> CF_B[m] * q.sc + q.of]), TRUE)
 CF_Unknown(q) == q.wkind \in {"ginput", "ginit"} \/ q.ckind \in {"ginput", "ginit"}
 
 -----------------------------------------------------------------------------
